@@ -16,7 +16,8 @@
 (*    le: n.split(".")[-1].lower() = "cmake", stem: ".".join(n.split(".")  *)
 (*    [:-1]), rk: rank in sorted() order]                                  *)
 (* and a pattern is [comp: names it matches as a path component,           *)
-(*   dironly: trailing slash, abs: <<TRUE, path>> for an absolute path].   *)
+(*   dironly: trailing slash, abs: <<TRUE, path>> for an absolute path,    *)
+(*   parent: "" or the directory name of a "**/parent/glob" pattern].      *)
 (***************************************************************************)
 EXTENDS Integers, Sequences, FiniteSets, TLC, Json, SequencesExt
 
@@ -55,6 +56,8 @@ IndexRst == RstName("index")
 \* pathspec is a library; binding B checks this reading of it against every observed match_file call)
 MatchOne(p, path, isDir) ==
   IF p.abs[1] THEN IsPrefix2(p.abs[2], path)
+  ELSE IF p.parent # "" THEN   \* "**/parent/glob": an entry matching glob directly below a directory called parent (and all below it)
+       \E j \in 1..(Len(path) - 1) : path[j].n = p.parent /\ path[j + 1].n \in p.comp
   ELSE \E j \in 1..Len(path) : path[j].n \in p.comp /\ (p.dironly => (j < Len(path) \/ isDir))
 Match(pats, path, isDir) == \E p \in pats : MatchOne(p, path, isDir)
 
